@@ -258,6 +258,36 @@ func checkC02(c *Ctx) {
 			}
 			cs[s] = callee
 		}
+		// the same decision as a table: a package-level map from the "type" tag to the parser, looked up with the tag
+		if len(cs) < 2 {
+			ir.EachInstr(fn, func(_ *ssa.BasicBlock, _ int, in ssa.Instruction) {
+				lk, ok := in.(*ssa.Lookup)
+				if !ok {
+					return
+				}
+				ld, ok := lk.X.(*ssa.UnOp)
+				if !ok {
+					return
+				}
+				g, ok := ld.X.(*ssa.Global)
+				if !ok {
+					return
+				}
+				for _, rows := range c.MapLiteralDispatch() {
+					for _, r := range rows {
+						mu, ok := r.At.(*ssa.MapUpdate)
+						if !ok || r.Target == nil || mu.Map.Referrers() == nil {
+							continue
+						}
+						for _, ref := range *mu.Map.Referrers() {
+							if st, ok := ref.(*ssa.Store); ok && st.Addr == ssa.Value(g) && st.Val == mu.Map {
+								cs[r.Method] = r.Target
+							}
+						}
+					}
+				}
+			})
+		}
 		if len(cs) >= 2 {
 			sw, cases = fn, cs
 		}
